@@ -230,6 +230,8 @@ class OpInterp(DictInterp):
         return super().binop(op, a, b)
 
     def ev(self, e, env):
+        if isinstance(e, ast.Name) and e.id == "NotImplemented" and "NotImplemented" not in env:
+            return NOTIMPL          # the operator method declines: Python then asks the other operand (see `binary`)
         if isinstance(e, ast.Constant):
             v = e.value
             if isinstance(v, bool) or v is None or isinstance(v, str):
@@ -279,6 +281,12 @@ class OpInterp(DictInterp):
         if isinstance(e, ast.Dict) and e.keys:
             out = {}
             for k, v in zip(e.keys, e.values):
+                if k is None:
+                    d0 = self.ev(v, env)          # {**a, **b}: the entries of a, then those of b -- a later entry replaces an earlier one
+                    if not isinstance(d0, dict):
+                        raise Raised("TypeError", "`**` of a %s" % self.kind_of(d0))
+                    out.update(d0)
+                    continue
                 kk = self.ev(k, env)
                 vv = self.ev(v, env)
                 out[self._key(kk)] = vv.rat if isinstance(vv, AScalar) else vv
